@@ -70,16 +70,16 @@ import verif_probes as VP
 from pyxel.observation import ParameterValues
 from pyxel.observation.misc import ProductMode, SequentialMode
 from pyxel.pipelines import DetectionPipeline, Processor
-ps = [ParameterValues(key='detector.geometry.row', values=[3, 4, 5]), ParameterValues(key='detector.geometry.col', values=[7, 8], enabled=True),
+ps = [ParameterValues(key='detector.geometry.row', values=[3, 0, 5]), ParameterValues(key='detector.geometry.col', values=[7, 0.0], enabled=True),
       ParameterValues(key='detector.environment.temperature', values=[100, 200], enabled=False)]
 prod = ProductMode(ps).get_parameters_item()
 got = sorted((e.index, tuple(sorted(e.parameters.items())), e.run_index) for e in prod)
-exp = sorted(((i, j), (('detector.geometry.col', c), ('detector.geometry.row', r)), n) for n, ((i, r), (j, c)) in enumerate(__import__('itertools').product(enumerate([3, 4, 5]), enumerate([7, 8]))))
+exp = sorted(((i, j), (('detector.geometry.col', c), ('detector.geometry.row', r)), n) for n, ((i, r), (j, c)) in enumerate(__import__('itertools').product(enumerate([3, 0, 5]), enumerate([7, 0.0]))))
 det = VP.detector(rows=3, cols=4)
 proc = Processor(detector=det, pipeline=DetectionPipeline())
 seq = SequentialMode(ps).get_parameters_item(processor=proc)
 gots = [tuple(sorted(e.parameters.items())) for e in seq]
-exps = [tuple(sorted({'detector.geometry.row': 3, 'detector.geometry.col': 4, k: v}.items())) for k, vs in (('detector.geometry.row', [3, 4, 5]), ('detector.geometry.col', [7, 8])) for v in vs]
+exps = [tuple(sorted({'detector.geometry.row': 3, 'detector.geometry.col': 4, k: v}.items())) for k, vs in (('detector.geometry.row', [3, 0, 5]), ('detector.geometry.col', [7, 0.0])) for v in vs]
 VIOLATED = got != exp or gots != exps
 DETAIL = 'product: ' + repr(got[:3]) + ' ... sequential: ' + repr(gots)
 if not VIOLATED:
